@@ -152,6 +152,18 @@ func build() string {
 	return bin
 }
 
+// pinBinary links (or copies) the cached binary into the run's own work dir: a concurrent check of another tree may prune the cache
+func pinBinary(bin, work string) string {
+	dst := filepath.Join(work, "harness.test")
+	if err := os.Link(bin, dst); err != nil {
+		if err := copyFile(bin, dst); err != nil {
+			die(2, "cannot pin harness binary: %v", err)
+		}
+		_ = os.Chmod(dst, 0o755)
+	}
+	return dst
+}
+
 func pruneCache(keep string) {
 	ents, _ := os.ReadDir(cacheRoot)
 	type e struct {
@@ -368,6 +380,7 @@ func runCheck(id, tier string, pl plan) int {
 	}
 	tmpDirs = append(tmpDirs, work)
 	defer os.RemoveAll(work)
+	bin = pinBinary(bin, work)
 
 	budget := 0
 	if tier == "thorough" {
@@ -671,6 +684,7 @@ func selftest(args []string) int {
 	work, _ := os.MkdirTemp("/tmp", "verif-selftest-")
 	tmpDirs = append(tmpDirs, work)
 	defer os.RemoveAll(work)
+	bin = pinBinary(bin, work)
 	type target struct {
 		world, profile, prop string
 		runs, perProc        int
